@@ -814,13 +814,15 @@ fn write_evidence(def: &check::CheckDef, prop: &str, tier: &str, seed: u64, runs
             "known_findings_hit": known_hits,
             "second_engine": miri_stats,
             "real_code": ["kanal src/lib.rs", "src/internal.rs", "src/signal.rs", "src/future.rs", "src/pointer.rs", "src/mutex.rs", "src/backoff.rs", "src/error.rs", "lock_api", "alloc::collections::VecDeque", "alloc::sync::Arc"],
-            "stubbed": ["core::sync::atomic::* (scheduling point + happens-before bookkeeping)", "std::thread::{park,unpark,current,yield_now,sleep,available_parallelism}", "std::time::Instant (virtual clock)", "std::hint::spin_loop (no-op)", "executor and wakers (harness executor instead of tokio)", "OS scheduler (seeded scheduler over corosensei coroutines)"]
+            "stubbed": ["core::sync::atomic::* (scheduling point + happens-before bookkeeping)", "std::thread::{park,park_timeout,unpark,current,yield_now,sleep,available_parallelism} (park_timeout = timed park in simulated time)", "std::time::Instant (virtual clock; idle time accelerates)", "statics of the system under test are restored before every run", "std::hint::spin_loop (no-op)", "executor and wakers (harness executor instead of tokio)", "OS scheduler (seeded scheduler over corosensei coroutines)"]
         },
         "assumptions": [
             "sampling: a clean batch is evidence over the stated runs, not proof",
             "executions are sequentially consistent; missing release/acquire edges are detected by the vector-clock monitor on hooked accesses, not by observing stale values",
             "default cargo features of kanal (async on, std-mutex off)",
-            "corosensei context switching, lock_api and rustc are trusted"
+            "corosensei context switching, lock_api and rustc are trusted",
+            "every scheduling policy is fair in the limit (a task is preempted after 3000 decisions of its own without yielding); waiting must reach a yield, park, sleep or clock read - an unlimited busy wait without any of them exhausts the decision budget and is reported as a hang (documented limit)",
+            "a run that reaches no scheduling point for 30 s of wall-clock time is reported as stuck (the only verdict that reads a real clock)"
         ]
     });
     let dir = format!("{}/evidence", base_dir());
